@@ -1178,6 +1178,8 @@ class DiscretizedSpaceElement(Tensor):
             except TypeError:
                 axis = (int(axis),)
 
+            # Normalize negative axes
+            axis = [int(a) + self.ndim if a < 0 else int(a) for a in axis]
             reduced_axes = [i for i in range(self.ndim) if i not in axis]
 
         # --- Evaluate ufunc --- #
